@@ -171,6 +171,8 @@ func (sc *c12Scenario) Run(s *simrt.Sim) {
 				// a question submitted through the Ask API is an ordinary message of its sender
 				msg = m.Message
 				defer m.Reply(msg)
+			default:
+				sc.extra = append(sc.extra, Violation{Clause: "exactly-once", Fingerprint: "actor:message-nobody-sent", Detail: fmt.Sprintf("actor %d's effect was called with %T %v, which nobody sent", me, in, in)})
 			}
 			if msg >= 0 && msg < len(sc.items) {
 				work(sc.items[msg], me)
